@@ -26,7 +26,27 @@ def path_arg(rng, doc):
     return PathArg(rparts, dt, mt)
 
 
+def cross_tree(rng, doc, depth):
+    """a condition TREE (any shape: left-nested, right-nested, balanced; any operator) whose leaves are
+    cross-referencing leaves or ordinary leaves - the position of a path argument in the tree must not matter"""
+    if depth == 0 or rng.random() < 0.2:
+        if rng.random() < 0.6:
+            return cross_leaf(rng, doc)
+        if PARTS_GEN[0] is not None:         # the spec-expressible fragment (JSON-able, well-typed arguments)
+            from harness.props import grammardrv as gd
+            return ("leaf", gd.spec_leaf_recipe(rng, [("value", "none"), ("value", "length")]))
+        return ("leaf", gen.leaf_recipe(rng, kinds=[("value", "none"), ("value", "length")]))
+    op = rng.choice(["and", "or", "xor", "and", "or"])
+    return (op, cross_tree(rng, doc, depth - 1), cross_tree(rng, doc, depth - 1))
+
+
 def cross_cond(rng, doc):
+    if rng.random() < 0.12:
+        return cross_tree(rng, doc, rng.choice([1, 2, 2, 3]))
+    return cross_leaf(rng, doc)
+
+
+def cross_leaf(rng, doc):
     L = lambda fn, pre, acts, akw=None: ("leaf", {"datum": "value", "pre": pre, "fn": fn, "actuals": acts, "akw": akw or {}})
     p = path_arg(rng, doc)
     r = rng.random()
@@ -34,8 +54,12 @@ def cross_cond(rng, doc):
         return L(rng.choice(["equal_to", "less_than", "greater_than_or_equal_to", "not_equal_to"]), "none", [p])
     if r < 0.40:
         return L(rng.choice(["in_", "not_in"]), "none", [p])
-    if r < 0.55:
+    if r < 0.50:
         return L("in_", "none", [[p, rng.choice([1, "a", 7])]])                      # nested in a list argument
+    if r < 0.55:
+        if PARTS_GEN[0] is not None:         # JSON has no tuples
+            return L("in_", "none", [[rng.choice([1, "a", 7]), p]])
+        return L(rng.choice(["in_", "equal_to"]), "none", [(rng.choice([1, "a", 7]), p)])   # nested in a TUPLE argument
     if r < 0.65:
         return L("in_range", "none", [], {"lower": 0, "upper": p})                  # keyword
     if r < 0.72:
@@ -53,7 +77,7 @@ def cross_cond(rng, doc):
         return L(rng.choice(["equal_to", "not_equal_to", "in_"]), "none",
                  [rng.choice([{"path": ["a"]}, {"path.length": ["a", 0], "b": 1}, {"a": {"path": [1]}},
                               {"b": 1, "path": ["a"]}, {"mode": "x", "path.first": ["a"], "z": None}])])
-    return ("and", L("equal_to", "none", [p]), L("less_than", "none", [path_arg(rng, doc)]))
+    return (rng.choice(["and", "or", "xor"]), L("equal_to", "none", [p]), L("less_than", "none", [path_arg(rng, doc)]))
 
 
 def directed(rng, doc, rr):
